@@ -215,6 +215,19 @@ def agent_main(cmd_q, res_q):
                 res = ('ok', pickle.dumps(reg[cmd[1]]))
             elif op == 'call':
                 res = ('ok', do_call(reg, cmd[1], cmd[2], cmd[3], cmd[4], cmd[5]))
+            elif op == 'fork-use':
+                # a child made with the stdlib *fork* start method inherits every proxy of this process by memory (no pickling);
+                # it uses one of them and exits
+                import multiprocessing as _mp
+                import warnings
+
+                with warnings.catch_warnings():
+                    warnings.simplefilter('ignore')
+                    c = _mp.get_context('fork').Process(target=_fork_child_use, args=(reg[cmd[1]],))
+                    c.start()
+                c.join(60)
+                res = ('ok', c.exitcode)
+                c = None
             elif op == 'gc':
                 gc.collect()
             elif op == 'handles':
@@ -231,6 +244,15 @@ def agent_main(cmd_q, res_q):
         res_q.put(res)
         res = None
         cmd = None
+
+
+def _fork_child_use(p):
+    if hasattr(p, '__len__'):
+        len(p)
+    elif hasattr(p, 'get'):
+        p.get()
+    else:
+        p.size
 
 
 def child_via_arg(p, anchor_len_expected=None):
